@@ -535,7 +535,7 @@ func TestVerif_C09(t *testing.T) {
 		fmt.Printf("INCONCLUSIVE property=C09 reason=too few refresh / TTL / Max-Age observations (%d, %d, %d)\n", run.Counter("refresh_reissues"), run.Counter("redis_ttl_checks"), run.Counter("maxage_checks"))
 		t.Fail()
 	}
-	run.Finish(int64(run.Env.Pick(1200, 6000)), run.Env.Pick(60, 120))
+	run.Finish(int64(run.Env.Pick(2200, 6000)), run.Env.Pick(95, 120))
 }
 
 // ---------------------------------------------------------------------------------------------------------
